@@ -291,3 +291,49 @@ pub fn run_cross(rng: &mut Rng, count: usize, thorough: bool, extra: &[String], 
         produced += 1;
     }
 }
+
+/// Mode `pairs` (C07 / C06): on medium frameworks (9-13 arguments, several preferred extensions: long searches with
+/// discarded and restarted candidates) EVERY pair of arguments is put to the skeptical preferred (and, one framework in
+/// four, ideal) query with and without certificate, each on a fresh solver object; the two statuses must coincide
+/// (both are the disjunction semantics).  Only the disagreements are written, with the number of queries made.
+pub fn run_pairs(rng: &mut Rng, count: usize, _thorough: bool, _extra: &[String], out: &mut Out) {
+    for _ in 0..count {
+        let n = rng.range(9, 13);
+        let dens = rng.range(10, 22);
+        let mut atts: Vec<(usize, usize)> = Vec::new();
+        for a in 0..n {
+            for b in 0..n {
+                if a != b && rng.below(100) < dens {
+                    atts.push((a, b));
+                    if rng.chance(1, 3) { atts.push((b, a)); }
+                }
+            }
+        }
+        atts.sort();
+        atts.dedup();
+        rng.shuffle(&mut atts);
+        let b = Build::Iccma(n, atts);
+        let af = build_af(&b);
+        out.case("pairs");
+        out.inp("recipe pairs_medium");
+        write_build(out, &b);
+        let sems: Vec<&str> = if rng.chance(1, 4) { vec!["PR", "ID"] } else { vec!["PR"] };
+        let mut n_q = 0;
+        for sem in sems.iter() {
+            for x in 1..=n {
+                for y in (x + 1)..=n {
+                    let args = [x, y];
+                    let r0 = guarded(|| run_query(&af, sem, "DS", false, "aux_co", &args, default_factory()));
+                    let r1 = guarded(|| run_query(&af, sem, "DS", true, "aux_co", &args, default_factory()));
+                    n_q += 2;
+                    let (s0, s1) = (acc_string(&r0), acc_string(&r1));
+                    if s0 != s1 {
+                        out.out(&format!("mismatch {} DS {} {} nocert={} cert={}", sem, x, y, s0, s1));
+                    }
+                }
+            }
+        }
+        out.out(&format!("queries {}", n_q));
+        out.end();
+    }
+}
